@@ -8,7 +8,7 @@ class Validation:
       seg = self.get("sid")
       seq = seg.sequence
       if not gfapy.is_placeholder(seq):
-        seqlen = len(seq)
+        seqlen = seg.slen
         for sfx in ["beg", "end"]:
           fn = "s_"+sfx
           pos = self.get(fn)
